@@ -207,7 +207,7 @@ def cmd_check(pid, tier, seed, opts):
         return EXIT_ERROR
     nproc = min(int(os.environ.get("VERIF_JOBS", "16")), len(tasks))
     # every task runs in its own worker with a wall-clock cap: a solver call that ignores its time-out must not hang the check
-    cap = float(os.environ.get("VERIF_TASK_CAP_S", "150" if tier == "quick" else "900"))
+    cap = float(os.environ.get("VERIF_TASK_CAP_S", "600" if tier == "quick" else "3600"))
     results = []
     pool = mp.get_context("fork").Pool(nproc, maxtasksperchild=1)
     try:
@@ -368,6 +368,11 @@ def cmd_check(pid, tier, seed, opts):
     trusted_base = [ASSUMPTIONS[k] for k in ("R1", "R2", "R3", "R4", "R5", "R6", "R7", "T")]
     trusted_base += ["assumed contract (not verified): " + k for k in trusted_funcs]
     trusted_base += meta.get("trusted", [])
+    extdir = os.path.join(ROOT, "pyvc", "ext")
+    exts = sorted(f[:-3] for f in os.listdir(extdir) if f.endswith(".py") and f != "__init__.py") if os.path.isdir(extdir) else []
+    if exts and funcs:
+        trusted_base.append("engine extensions loaded (numpy primitives axiomatised by minimal quantified facts, engine hooks; each module "
+                            "header states the exact facts and why they are sound): pyvc/ext/{%s}.py" % ",".join(exts))
     trusted_base += ["z3 %s (python API) as the only prover; e-matching/MBQI portfolio; hypotheses may be dropped (sound), never added"
                      % _z3v()]
     cov = {
